@@ -14,6 +14,27 @@ TEXT = {
             'from /repo/src, and the model functions are run against the implementation on the exhaustive/edit/URI '
             'domains the property names.', 'DESIGN.md section 5 C16',
             'Coq proof (iff characterisations) + regenerated literal tables + differential run'),
+    'C17': ('Coq theorems for EVERY registration sequence and request: route_key is injective; lookup on the table built '
+            'by any sequence of add_route calls (duplicates included) equals the first registration for (method, prefix+path); '
+            'handle_http_request runs exactly that handler once (or answers 404 over HTTP/1.1) and stamps server id and JSON '
+            'content type; a duplicate registration is refused and leaves the table unchanged. Key format, 404 and media '
+            'type are tied to the source literals; recording handlers on the real router are compared with the model and '
+            'with an independent dictionary oracle.', 'DESIGN.md section 5 C17',
+            'Coq proof (refinement of the HashMap to first-match over the registration list) + differential run'),
+    'C05': ('Coq theorems: the serialised bytes spelled out line by line; Content-Length rule for every version, status and '
+            'builder program (unbounded length); an independent reader (status line, header lines, Content-Length bytes) '
+            'recovers exactly (status line, header lines, body) from any concatenation of responses with arbitrary bodies '
+            '(induction on the list of responses; decimal rendering proved exact); write_all delivers the same bytes for '
+            'every sink behaviour. Hypothesis: server identity free of LF and bodies below 2^31 bytes (necessity witnessed). '
+            'Strings tied to the source; bytes compared with the implementation and with an independent Python serialiser '
+            'and reader on concatenations.', 'DESIGN.md section 5 C05',
+            'Coq proof (round-trip law through an independent reader) + literal tie + differential run'),
+    'C06': ('Coq theorems over every history of enqueue/try_write/clear and every write result allowed by io::Write '
+            '(k <= len, EINTR, error, 0): accepted ++ unsent = committed (per discard epoch), hence prefix/no loss/no '
+            'duplication/no reordering; pending_write <-> unsent non-empty; failure discards and reports closed; EINTR leaves '
+            'the state; InvalidWrite without a write call; the drain(..k) panic site is unreachable. try_write of the '
+            'implementation is driven through a scripted stream with the same histories and compared per call.',
+            'DESIGN.md section 5 C06', 'Coq proof (invariant by induction over operations) + differential run'),
 }
 
 NOTE = ('Trusted: Coq kernel; hand-written model tied to /repo by literal regeneration (gen/srclit.py) and '
